@@ -136,9 +136,9 @@ func initPools(c *vlib.Ctx) {
 
 // ResJ is one model.ProviderResult as written by the handler (replayable).
 type ResJ struct {
-	Ctx   *string `json:"ctx"`            // hex; null = nil slice
-	Md    *string `json:"md"`             // hex; null = nil slice
-	Prov  int     `json:"prov"`           // peer rank; -1 = nil Provider
+	Ctx   *string `json:"ctx"`             // hex; null = nil slice
+	Md    *string `json:"md"`              // hex; null = nil slice
+	Prov  int     `json:"prov"`            // peer rank; -1 = nil Provider
 	Addrs []int   `json:"addrs,omitempty"` // addr ranks
 }
 
